@@ -100,7 +100,7 @@ def run(env, rep):
                 rep.call_sites += 1
                 a = args[dpar[cp] - 1]
                 base, off = S.norm(a)
-                mine = ("ld", (("L", dpar[k]), ()), "entry")
+                mine = ("ld", (it.L(dpar[k]), ()), "entry")
                 if base != mine:
                     problems.append("%s passes %s as depth to %s (not its own depth plus a constant)" % (b.pretty.split("::")[-1], stable(a), prog.bodies[cp].pretty.split("::")[-1]))
                     continue
